@@ -22,6 +22,10 @@ ASSUMPTIONS = [
     'present, modified basis, or GlobalHighOrderGrid which matches moments on the inner points); Simpson / Lagrange / B-spline '
     'with boundary=False and unmodified basis have zero-boundary-value semantics (set_grid strips the boundary weights)',
     'modified basis, one point, a = b (returns [0.0] in Python) is outside the model (None)',
+    'histories on one object: every request is compared EXACTLY with fresh one-dimensional objects (same arithmetic), the point arrays '
+    'handed in must be unchanged afterwards, the returned weight arrays are overwritten by the harness before the next request; '
+    'two-dimensional hierarchical rules are judged by the integrals of 1, x, y within 1e-8 * area * max(1,|bounds|); numpy arrays as '
+    'stripes are excluded for GlobalBSplineGrid (the unchanged code raises AttributeError there); weighted grid variants are not driven',
     gen.ASSUMPTION,
 ]
 
@@ -67,9 +71,11 @@ def gen_npts(rng):
     r = rng.random()
     if r < 0.30:
         return rng.choice([3, 3, 4, 4, 5, 5, 6, 7])      # the special cases of the weight formulas
-    if r < 0.75:
+    if r < 0.72:
         return rng.randrange(8, 25)
-    return rng.randrange(25, 61)
+    if r < 0.96:
+        return rng.randrange(25, 61)
+    return rng.randrange(65, 200)       # beyond typical internal block sizes (64, 128)
 
 
 def gen_dim(rng, wsplit, npts=None):
@@ -144,6 +150,8 @@ def gen_cert_case(rng):
         dd = dict(a=a, b=b, pts=pts, levels=lev)
     else:
         n = rng.choice([3, 4, 5, 6, 7, 8, 9]) if rng.random() < 0.4 else rng.randrange(10, 34 if hier else 61)
+        if rng.random() < 0.04:
+            n = rng.randrange(65, 100 if hier else 140)
         style = rng.choice(['uniform', 'left', 'right', 'ends', 'point', 'point'])
         pts, lev = gen_tree(rng, a, b, n, style, wsplit, 6 if wsplit else (9 if hier else 14))
         dd = dict(a=a, b=b, pts=pts, levels=lev)
@@ -172,10 +180,13 @@ def impl_trap(case):
     from sparseSpACE.Function import Function
     out = dict(static=[], grid=None)
     mb, bd = case['mb'], case['boundary']
+    out['args_unchanged'] = True
     for dd in case['dims']:
         try:
-            w = GlobalTrapezoidalGrid.compute_weights(list(dd['pts']), dd['a'], dd['b'], mb)
+            arg = np.array(dd['pts'], dtype=float) if case['scramble'] % 2 else list(dd['pts'])
+            w = GlobalTrapezoidalGrid.compute_weights(arg, dd['a'], dd['b'], mb)
             out['static'].append(('ok', _rl(w)))
+            out['args_unchanged'] = out['args_unchanged'] and [float(x) for x in arg] == dd['pts']
         except Exception as e:
             out['static'].append(_exc(e))
     polys = case['polys']
@@ -194,6 +205,8 @@ def impl_trap(case):
         g = GlobalTrapezoidalGrid(a, b, boundary=bd, modified_basis=mb)
         pts = [list(dd['pts']) for dd in case['dims']]; lev = [list(dd['levels']) for dd in case['dims']]
         g.set_grid(pts, lev)
+        out['args_unchanged'] = out['args_unchanged'] and pts == [list(dd['pts']) for dd in case['dims']] and \
+            lev == [list(dd['levels']) for dd in case['dims']]
         levelvec = [max(l) if l else 0 for l in lev]
         res = dict(coords=[_rl(c) for c in g.coordinate_array], weights=[_rl(w) for w in g.weights],
                    levels=[[int(x) for x in l] for l in g.levels], num_points=[int(x) for x in g.levelToNumPoints(levelvec)])
@@ -352,10 +365,16 @@ def check_trap(chk, cases, impl, keys, samples):
         st, r = impl[i]
         chk.count('trap:kind=' + c['kind']); chk.count('trap:d=%d' % len(c['dims']))
         chk.count('trap:boundary=%d,modified=%d' % (c['boundary'], c['mb']))
+        chk.count('trap:max-points=' + n_bucket(max(len(dd['pts']) for dd in c['dims']))); chk.count('trap:weighted-splits=%d' % c['wsplit'])
+        for dd in c['dims']:
+            chk.count('interval=[%s,%s]' % (dd['a'], dd['b']))
         sig0 = {'boundary': int(c['boundary']), 'mb': int(c['mb'])}
         if st != 'ok':
             chk.violation('corr:C09/trap', 'worker-failed', dict(sig0, status=st), c, dict(impl=str(r)[:400]))
             continue
+        if not r.get('args_unchanged', True):
+            chk.violation('oracle:trap/arguments-unchanged', 'argument-modified', dict(sig0, family='trap'), c,
+                          dict(text='compute_weights / set_grid modified the point or level arrays handed in'))
         mm = by_case[i]
         exact = is_exact(c)
         bad = []          # (observable, dimension, detail)
@@ -456,6 +475,10 @@ SHRUNK = {}     # only the first cases of each violation group are shrunk
 SHRINK_JOBS = []  # (index into chk.violations, job) ; all jobs are run in one worker pool at the end
 
 
+def n_bucket(n):
+    return '<=5' if n <= 5 else '6-24' if n <= 24 else '25-64' if n <= 64 else '>64'
+
+
 def n_class(c):
     n = max(len(dd['pts']) for dd in c['dims']) if 'dims' in c else len(c['dim']['pts'])
     return str(n) if n <= 5 else '>=6'
@@ -488,6 +511,8 @@ def cert_fails(c, job):
 def shrink_worker(job):
     """Greedy shrinking inside one worker process: remove points while the same clause keeps failing."""
     c = job['case']
+    if job['kind'] == 'hist':
+        return shrink_hist(c)
     if job['kind'] == 'trap':
         k = job['k']
         if k is None:
@@ -538,7 +563,7 @@ def run_shrink_jobs(chk):
             v = chk.violations[idx]
             v['case'] = r
             v['size'] = len(json.dumps(r, default=str))
-            if 'parity' in v['sig']:
+            if 'parity' in v['sig'] and 'dim' in r:
                 v['sig']['parity'] = 'even' if len(r['dim']['pts']) % 2 == 0 else 'odd'
     del SHRINK_JOBS[:]
 
@@ -574,13 +599,25 @@ def cert_degrees(c, res):
     return None
 
 
+def cert_sig(c):
+    sig = {'family': c['family'], 'boundary': int(c['boundary']), 'mb': int(c['mb'])}
+    if 'p' in c['par']:
+        sig['p'] = c['par']['p']          # order of the hierarchical basis (p = 1 is structurally different: two-knot windows)
+    return sig
+
+
 def check_cert(chk, cases, impl, keys, samples):
     mcases, midx = [], []
     for i, c in enumerate(cases):
         st, r = impl[i]
         fam = c['family']
         chk.count('cert:%s boundary=%d modified=%d' % (fam, c['boundary'], c['mb']))
-        sig0 = {'family': fam, 'boundary': int(c['boundary']), 'mb': int(c['mb'])}
+        chk.count('cert:points=' + n_bucket(len(c['dim']['pts']))); chk.count('cert:complete-grid=%d weighted-splits=%d' % (c['full'], c['wsplit']))
+        if 'p' in c['par']:
+            chk.count('cert:%s p=%d' % (fam, c['par']['p']))
+        if fam == 'highorder':
+            chk.count('cert:highorder split_up=%d do_nnls=%d max_degree=%d' % (c['par']['split_up'], c['par']['do_nnls'], c['par']['max_degree']))
+        sig0 = cert_sig(c)
         n = len(c['dim']['pts'])
         if st != 'ok':
             chk.violation('checker:moments_ok', 'worker-failed', dict(sig0, status=st), c, dict(impl=str(r)[:300]))
@@ -622,7 +659,7 @@ def check_cert(chk, cases, impl, keys, samples):
     for (i, K, tols), mr in zip(midx, mres):
         c = cases[i]; res = impl[i][1][1]
         fam = c['family']
-        sig0 = {'family': fam, 'boundary': int(c['boundary']), 'mb': int(c['mb'])}
+        sig0 = cert_sig(c)
         chk.count('cert:moments_ok evaluated'); chk.count('cert:degrees<%d' % K)
         chk.traces += 1
         ok, resid, nonneg = mr
@@ -663,6 +700,440 @@ def first_bad_degree(c, res):
     return None
 
 
+# ----------------------------------------------------------------------------------------------- part C: histories on ONE object
+# 2-4 consecutive set_grid requests on one grid object of every family of the envelope (same stripes again, a refinement that leaves
+# one half unchanged, another tree, exchanged / equal / scaled stripes in a second dimension), every step compared with a FRESH object
+# (exact equality: the same arithmetic), with the model (trapezoid) / the extracted moment checker (other families), plus argument
+# immutability (the point and level arrays handed in must not be modified) and returned-array aliasing (the returned weight arrays are
+# overwritten by the caller before the next request).
+HIST_FAMILIES = ['trap', 'trap', 'simpson', 'highorder', 'highorder', 'highorder', 'lagrange', 'bspline']
+STEP_KINDS = ['same', 'same', 'refine-right', 'refine-right', 'refine-left', 'refine-any', 'other-tree', 'swap-dims', 'back-to-first']
+
+
+def refine_dim(rng, dd, side):
+    """Split one leaf interval of the tree grid at its midpoint; side 'right'/'left' keeps the other half of [a,b] unchanged."""
+    pts, lev = dd['pts'], dd['levels']
+    mid = (F(dd['a']) + F(dd['b'])) / 2
+    cand = []
+    for i in range(len(pts) - 1):
+        l, r = F(pts[i]), F(pts[i + 1])
+        m = (l + r) / 2
+        if F(float(m)) != m or max(lev[i], lev[i + 1]) >= 12:
+            continue
+        if side == 'right' and l < mid:
+            continue
+        if side == 'left' and r > mid:
+            continue
+        cand.append(i)
+    if not cand:
+        return dict(dd, pts=list(pts), levels=list(lev))
+    i = rng.choice(cand if side != 'ends' else [cand[0], cand[-1]])
+    m = float((F(pts[i]) + F(pts[i + 1])) / 2)
+    return dict(dd, pts=pts[:i + 1] + [m] + pts[i + 1:], levels=lev[:i + 1] + [max(lev[i], lev[i + 1]) + 1] + lev[i + 1:])
+
+
+def scale_dim(dd, a, b):
+    """The same tree on another interval (equal level vector, affinely mapped points)."""
+    a0, b0 = F(dd['a']), F(dd['b'])
+    pts = [float(F(a) + (F(x) - a0) * (F(b) - F(a)) / (b0 - a0)) for x in dd['pts']]
+    return dict(a=a, b=b, pts=pts, levels=list(dd['levels']))
+
+
+def gen_hist_case(rng, big=False):
+    fam = rng.choice(HIST_FAMILIES)
+    par = {}
+    if fam == 'trap':
+        flags = rng.choice([(True, False), (False, False), (False, True), (False, True)])
+    elif fam == 'simpson':
+        flags = rng.choice([(True, False), (True, False), (False, False)])
+    elif fam == 'highorder':
+        par = dict(split_up=rng.random() < 0.6, max_degree=rng.choice([2, 3, 5, 5, 7]), do_nnls=rng.random() < 0.1)
+        flags = rng.choice([(True, False), (True, False), (True, False), (False, False)])
+    else:
+        par = dict(p=rng.choice([1, 2, 3, 5]) if fam == 'lagrange' else rng.choice([1, 3, 5]))
+        flags = rng.choice([(True, False), (True, False), (False, True)])
+    hier = fam in ('lagrange', 'bspline')
+    d = 1 if rng.random() < (0.65 if hier else 0.5) else 2
+    iv0 = rng.choice(INTERVALS)
+    n0 = rng.choice([3, 4, 5, 5, 6, 7, 9]) if rng.random() < 0.45 else rng.randrange(10, 26 if hier else 41)
+    if big:
+        n0 = rng.choice([65, 97, 129]) if not hier else 65
+    style = rng.choice(['uniform', 'left', 'right', 'right', 'ends', 'point'])
+    pts, lev = gen_tree(rng, iv0[0], iv0[1], n0, style, False, 9 if hier else 14)
+    dims = [dict(a=iv0[0], b=iv0[1], pts=pts, levels=lev)]
+    mode2 = None
+    if d == 2:
+        mode2 = rng.choice(['equal-stripe', 'equal-stripe', 'scaled-stripe', 'scaled-stripe', 'independent'])
+        if mode2 == 'equal-stripe':
+            dims.append(dict(dims[0], pts=list(pts), levels=list(lev)))
+        elif mode2 == 'scaled-stripe':
+            iv1 = rng.choice([iv for iv in INTERVALS if iv != iv0])
+            dims.append(scale_dim(dims[0], iv1[0], iv1[1]))
+        else:
+            iv1 = rng.choice(INTERVALS)
+            p1, l1 = gen_tree(rng, iv1[0], iv1[1], rng.choice([3, 4, 5, 7, 9, 12]), rng.choice(['uniform', 'left', 'right']), False, 9)
+            dims.append(dict(a=iv1[0], b=iv1[1], pts=p1, levels=l1))
+    steps = [dict(kind='first', dims=[dict(pts=list(x['pts']), levels=list(x['levels'])) for x in dims])]
+    cur = [dict(x) for x in dims]
+    for _ in range(rng.choice([1, 2, 2, 3])):
+        kind = rng.choice(STEP_KINDS)
+        if kind == 'swap-dims' and not (d == 2 and mode2 != 'independent'):
+            kind = 'refine-right'
+        if kind == 'same':
+            nxt = cur
+        elif kind.startswith('refine'):
+            k = rng.randrange(d)
+            nxt = [dict(x) for x in cur]
+            for _r in range(rng.choice([1, 1, 2])):
+                nxt[k] = refine_dim(rng, nxt[k], kind.split('-')[1])
+        elif kind == 'other-tree':
+            k = rng.randrange(d)
+            nxt = [dict(x) for x in cur]
+            n1 = rng.choice([3, 4, 5, 6, 7, 9, len(cur[k]['pts'])])      # also: another tree of EQUAL size
+            p1, l1 = gen_tree(rng, cur[k]['a'], cur[k]['b'], n1, rng.choice(['uniform', 'left', 'right', 'point']), False, 9 if hier else 14)
+            nxt[k] = dict(cur[k], pts=p1, levels=l1)
+        elif kind == 'swap-dims':
+            nxt = [scale_dim(cur[1], cur[0]['a'], cur[0]['b']), scale_dim(cur[0], cur[1]['a'], cur[1]['b'])]
+        else:
+            nxt = [dict(x) for x in dims]
+        cur = nxt
+        steps.append(dict(kind=kind, dims=[dict(pts=list(x['pts']), levels=list(x['levels'])) for x in cur]))
+    return dict(kind='hist', family=fam, par=par, boundary=flags[0], mb=flags[1], intervals=[[x['a'], x['b']] for x in dims],
+                mode2=mode2, steps=steps, poke=rng.random() < 0.6,
+                # the driver hands lists in; numpy arrays are accepted by every family except GlobalBSplineGrid
+                # (AttributeError: 'numpy.ndarray' object has no attribute 'index', Grid.py compute_1D_quad_weights) - excluded there
+                arg_style='list' if fam == 'bspline' else rng.choice(['list', 'ndarray', 'ndarray']),
+                values_seed=rng.randrange(1 << 30))
+
+
+def _make_grid(G, case):
+    fam, par, bd, mb = case['family'], case['par'], case['boundary'], case['mb']
+    a = [iv[0] for iv in case['intervals']]; b = [iv[1] for iv in case['intervals']]
+    if fam == 'trap':
+        return G.GlobalTrapezoidalGrid(a, b, boundary=bd, modified_basis=mb)
+    if fam == 'simpson':
+        return G.GlobalSimpsonGrid(a, b, boundary=bd, modified_basis=mb)
+    if fam == 'highorder':
+        return G.GlobalHighOrderGrid(a, b, boundary=bd, modified_basis=mb, **par)
+    if fam == 'lagrange':
+        return G.GlobalLagrangeGrid(a, b, boundary=bd, modified_basis=mb, p=par['p'])
+    return G.GlobalBSplineGrid(a, b, boundary=bd, modified_basis=mb, p=par['p'])
+
+
+def _observe(G, np, Function, g, case, step, style):
+    """One set_grid request on g; returns (observables, args_unchanged)."""
+    d = len(case['intervals'])
+    conv = (lambda x: np.array(x, dtype=float)) if style == 'ndarray' else list
+    convl = (lambda x: np.array(x, dtype=int)) if style == 'ndarray' else list
+    pts = [conv(dd['pts']) for dd in step['dims']]; lev = [convl(dd['levels']) for dd in step['dims']]
+    g.set_grid(pts, lev)
+    unchanged = all([float(x) for x in p_] == dd['pts'] and [int(x) for x in l_] == dd['levels']
+                    for p_, l_, dd in zip(pts, lev, step['dims']))
+    res = dict(coords=[_rl(c) for c in g.coordinate_array], weights=[_rl(w) for w in g.weights],
+               num_points=[int(x) for x in g.levelToNumPoints([max(dd['levels']) for dd in step['dims']])])
+    if case['family'] in ('lagrange', 'bspline') and d == 1:
+        coords = [float(x) for x in g.coordinate_array[0]]
+        if coords:
+            class OneHot(Function):
+                def eval(self, c):
+                    v = np.zeros(len(coords)); v[coords.index(c[0])] = 1.0
+                    return v
+
+                def output_length(self):
+                    return len(coords)
+            a = [iv[0] for iv in case['intervals']]; b = [iv[1] for iv in case['intervals']]
+            w = g.integrate(OneHot(), [max(step['dims'][0]['levels'])], a, b)
+            res['effective'] = _rl(np.asarray(w).reshape(-1))
+        else:
+            res['effective'] = []
+        unchanged = unchanged and [float(x) for x in pts[0]] == step['dims'][0]['pts']
+    if case['family'] in ('lagrange', 'bspline') and d == 2 and all(len(c) for c in g.coordinate_array):
+        # hierarchical rule in two dimensions: the integrals of 1, x, y (the per-dimension nodal weights are not exposed)
+        class Lin3(Function):
+            def eval(self, c):
+                return np.array([1.0, c[0], c[1]])
+
+            def output_length(self):
+                return 3
+        a = [iv[0] for iv in case['intervals']]; b = [iv[1] for iv in case['intervals']]
+        w = g.integrate(Lin3(), [max(dd['levels']) for dd in step['dims']], a, b)
+        res['integrals'] = _rl(np.asarray(w).reshape(-1))
+    return res, unchanged
+
+
+def impl_hist(case):
+    import numpy as np
+    import warnings
+    warnings.filterwarnings('ignore')
+    from sparseSpACE import Grid as G
+    from sparseSpACE.Function import Function
+    out = []
+    try:
+        g = _make_grid(G, case)
+    except Exception as e:
+        return [dict(reused=_exc(e), fresh=_exc(e), args_unchanged=True)]
+    for step in case['steps']:
+        rec = {}
+        try:
+            res, unchanged = _observe(G, np, Function, g, case, step, case['arg_style'])
+            rec['reused'] = ('ok', res); rec['args_unchanged'] = unchanged
+            if case['poke']:
+                # the caller owns what it got: overwrite the returned weight arrays in place
+                for w in g.weights:
+                    try:
+                        w *= -7.0
+                    except Exception:
+                        pass
+        except Exception as e:
+            rec['reused'] = _exc(e); rec['args_unchanged'] = True
+        # the same request on FRESH objects, one one-dimensional object per dimension: the rule of a dimension depends on its own
+        # stripe and interval only (neither on earlier requests nor on the other dimensions)
+        try:
+            fr = dict(coords=[], weights=[], num_points=[])
+            for k in range(len(case['intervals'])):
+                c1 = dict(case, intervals=[case['intervals'][k]])
+                r1, _ = _observe(G, np, Function, _make_grid(G, c1), c1, dict(step, dims=[step['dims'][k]]), 'list')
+                fr['coords'] += r1['coords']; fr['weights'] += r1['weights']; fr['num_points'] += r1['num_points']
+                if 'effective' in r1 and len(case['intervals']) == 1:
+                    fr['effective'] = r1['effective']
+                if 'effective' in r1:
+                    fr.setdefault('effective_dims', []).append(r1['effective'])
+            if len(fr.get('effective_dims', [])) == 2:
+                (w0, w1), (x0, x1) = fr['effective_dims'], fr['coords']
+                s0, s1 = sum(w0), sum(w1)
+                fr['integrals'] = [s0 * s1, sum(w * x for w, x in zip(w0, x0)) * s1, s0 * sum(w * x for w, x in zip(w1, x1))]
+            fr.pop('effective_dims', None)
+            rec['fresh'] = ('ok', fr)
+        except Exception as e:
+            rec['fresh'] = _exc(e)
+        out.append(rec)
+    return out
+
+
+def hist_step_cases(case, si):
+    """The fresh-object cases (one per dimension) that step si of the history corresponds to: shape of part A / part B cases."""
+    res = []
+    for k, (iv, dd) in enumerate(zip(case['intervals'], case['steps'][si]['dims'])):
+        dim = dict(a=iv[0], b=iv[1], pts=dd['pts'], levels=dd['levels'])
+        if case['family'] == 'trap':
+            res.append(dict(kind='valid', dims=[dim], boundary=case['boundary'], mb=case['mb'], wsplit=False, polys=[[1, 1]],
+                            scramble=1, values_seed=case['values_seed'] + k))
+        else:
+            lv = dd['levels']
+            n = len(lv)
+            full = n >= 3 and (n - 1) & (n - 2) == 0 and sorted(lv[1:-1]) == sorted(
+                [l for l in range(1, (n - 1).bit_length()) for _ in range(2 ** (l - 1))]) and \
+                all(F(dd['pts'][j + 1]) - F(dd['pts'][j]) == F(dd['pts'][1]) - F(dd['pts'][0]) for j in range(n - 1))
+            res.append(dict(kind='cert', family=case['family'], par=case['par'], boundary=case['boundary'], mb=case['mb'], dim=dim,
+                            wsplit=False, full=full))
+    return res
+
+
+def hist_predicate(case, si, obs):
+    """Property predicate (Python twin) on what the object returned in step si. None or text."""
+    if obs[0] != 'ok':
+        return 'set_grid raises %s on a valid refinement-tree grid' % (obs[1:],)
+    res = obs[1]
+    if 'integrals' in res and (case['boundary'] or case['mb']):
+        (a0, b0), (a1, b1) = [(F(iv[0]), F(iv[1])) for iv in case['intervals']]
+        exact = [(b0 - a0) * (b1 - a1), (b0 * b0 - a0 * a0) / 2 * (b1 - a1), (b0 - a0) * (b1 * b1 - a1 * a1) / 2]
+        scale = (b0 - a0) * (b1 - a1) * max(1, abs(a0), abs(b0), abs(a1), abs(b1))
+        for name, got, ex in zip(('1', 'x', 'y'), res['integrals'], exact):
+            if abs(got - ex) > F(1, 10 ** 8) * scale:
+                return 'two-dimensional rule: integral of %s is %s, exact %s' % (name, float(got), float(ex))
+    for k, pc in enumerate(hist_step_cases(case, si)):
+        if case['family'] == 'trap':
+            o = oracle_trap_dim(pc, 0, res['coords'][k], res['weights'][k], None, 0)
+            if o:
+                return 'dimension %d: %s: %s' % (k, o[0], o[1])
+        else:
+            hier = case['family'] in ('lagrange', 'bspline')
+            if hier and 'effective' not in res:
+                continue
+            r1 = dict(coords=res['coords'][k], weights=res['effective'] if hier else res['weights'][k])
+            if case['family'] == 'simpson' and not case['boundary']:
+                continue
+            j = first_bad_degree(pc, r1)
+            if j is not None:
+                return 'dimension %d: moment of degree %d not reproduced' % (k, j)
+            inner = [F(x) for x in pc['dim']['pts']]
+            inner = inner if case['boundary'] else inner[1:-1]
+            if r1['coords'] != inner or len(r1['weights']) != len(inner):
+                return 'dimension %d: coordinates / weights do not line up with the (inner) points' % k
+    return None
+
+
+def check_hist(chk, cases, impl, keys, samples):
+    mcases, midx = [], []
+    for i, c in enumerate(cases):
+        st, r = impl[i]
+        if st != 'ok':
+            continue
+        for si, rec in enumerate(r):
+            if rec['reused'][0] != 'ok':
+                continue
+            res = rec['reused'][1]
+            for k, pc in enumerate(hist_step_cases(c, si)):
+                if c['family'] == 'trap':
+                    dd = pc['dims'][0]
+                    mcases.append((1, [c['boundary'], c['mb'], F(dd['a']), F(dd['b']), [F(x) for x in dd['pts']], dd['levels']]))
+                    midx.append((i, si, k, 'model', None))
+                else:
+                    hier = c['family'] in ('lagrange', 'bspline')
+                    if (hier and 'effective' not in res) or (c['family'] == 'simpson' and not c['boundary']):
+                        continue
+                    w = res['effective'] if hier else res['weights'][k]
+                    a, b = F(pc['dim']['a']), F(pc['dim']['b'])
+                    xs = [F(x) for x in pc['dim']['pts']]
+                    inner = xs if c['boundary'] else xs[1:-1]
+                    K = cert_degrees(pc, {})
+                    if K is None or not inner or len(w) != len(inner) or res['coords'][k] != inner:
+                        continue
+                    tols = [TOL_CERT * (sum(abs(wi) * abs(x) ** j for wi, x in zip(w, inner)) + abs((b ** (j + 1) - a ** (j + 1)) / (j + 1)))
+                            for j in range(K)]
+                    mcases.append((2, [inner, w, a, b, tols])); midx.append((i, si, k, 'moments', tols))
+    mres = run_model(9, mcases)
+    verdict = {}
+    for (i, si, k, what, tols), mr in zip(midx, mres):
+        verdict.setdefault((i, si), []).append((k, what, tols, mr))
+    for i, c in enumerate(cases):
+        st, r = impl[i]
+        fam = c['family']
+        d = len(c['intervals'])
+        chk.count('hist:%s boundary=%d modified=%d' % (fam, c['boundary'], c['mb'])); chk.count('hist:d=%d' % d)
+        chk.count('hist:steps=%d' % len(c['steps'])); chk.count('hist:args=%s poke=%d' % (c['arg_style'], c['poke']))
+        if c['mode2']:
+            chk.count('hist:second-dimension=' + c['mode2'])
+        for sk in c['steps'][1:]:
+            chk.count('hist:step=' + sk['kind'])
+        chk.count('hist:max-points=%s' % ('>64' if max(len(dd['pts']) for sk in c['steps'] for dd in sk['dims']) > 64 else '<=64'))
+        if fam == 'highorder':
+            chk.count('hist:highorder split_up=%d' % c['par']['split_up'])
+        pc0 = hist_step_cases(c, 0)[0]
+        sig0 = dict(cert_sig(pc0) if fam != 'trap' else {'family': 'trap', 'boundary': int(c['boundary']), 'mb': int(c['mb'])})
+        if st != 'ok':
+            chk.violation('corr:C09/history', 'worker-failed', dict(sig0, status=st), c, dict(impl=str(r)[:300]))
+            continue
+        chk.traces += 1
+        reported = False
+        for si, rec in enumerate(r):
+            hist = dict(c, steps=c['steps'][:si + 1])       # the whole history up to this step replays
+            ru, fr = rec['reused'], rec['fresh']
+            n = len(c['steps'][si]['dims'][0]['pts'])
+            # --- the fresh object first: what a single request does (same verdicts as parts A / B, known findings included)
+            if fr[0] == 'exc':
+                if si == 0 or ru[0] != 'exc':
+                    sig = dict(sig0, exc=fr[1], parity='even' if n % 2 == 0 else 'odd')
+                    chk.violation('oracle:cert/no-exception', 'cert-exception', sig, hist,
+                                  dict(exception=fr[1:], text='set_grid raises on a valid refinement-tree grid (fresh object)'))
+                if ru[0] == 'exc':
+                    continue
+            # --- argument immutability
+            if not rec['args_unchanged'] and not reported:
+                chk.violation('oracle:history/arguments-unchanged', 'argument-modified', dict(sig0, step=c['steps'][si]['kind']), hist,
+                              dict(text='set_grid / integrate modified the point or level arrays handed in (step %d)' % si))
+                reported = True
+            # --- the re-used object against the fresh one
+            why = None
+            if ru[0] == 'exc':
+                why = dict(observable='set_grid raises on the re-used object', impl=ru, fresh='accepts')
+            elif fr[0] == 'ok':
+                for obs in ('coords', 'weights', 'num_points', 'effective'):
+                    if ru[1].get(obs) != fr[1].get(obs):
+                        why = dict(observable=obs, reused=str(ru[1].get(obs))[:400], fresh=str(fr[1].get(obs))[:400])
+                        break
+            if why and not reported:
+                pred = hist_predicate(c, si, ru)
+                pred_fresh = hist_predicate(c, si, fr)
+                chk.violation('corr:C09/history', 'history-differs', dict(sig0, step=c['steps'][si]['kind'], observable=why['observable']),
+                              hist, dict(step=si, differs=why, property_predicate_on_reused_object=pred or 'holds',
+                                         property_predicate_on_fresh_object=pred_fresh or 'holds',
+                                         text='request %d on the re-used object differs from the same request on a fresh object' % si),
+                              failing_input=bool(pred) and not pred_fresh)
+                if SHRUNK.get(('hist', fam, why['observable']), 0) < 1:
+                    SHRUNK[('hist', fam, why['observable'])] = 1
+                    SHRINK_JOBS.append((len(chk.violations) - 1, dict(kind='hist', case=hist)))
+                reported = True
+            # --- property predicate on what the re-used object returned (covers the two-dimensional hierarchical integrals)
+            if not why and not reported and ru[0] == 'ok' and fr[0] == 'ok':
+                pred = hist_predicate(c, si, ru)
+                if pred and not hist_predicate(c, si, fr):
+                    chk.violation('oracle:history/predicate', 'history-predicate', dict(sig0, step=c['steps'][si]['kind']), hist,
+                                  dict(step=si, property_predicate_on_reused_object=pred, property_predicate_on_fresh_object='holds'))
+                    reported = True
+            # --- model / verified checker on what the re-used object returned
+            for k, what, tols, mr in verdict.get((i, si), []):
+                if what == 'model':
+                    if mr == [0] or sx.is_err(mr):
+                        continue
+                    _, mco, mwe, mle, mnp = mr
+                    mwe = [sx.q(x) for x in mwe]; mco = [sx.q(x) for x in mco]
+                    if (mwe != ru[1]['weights'][k] or mco != ru[1]['coords'][k]) and not reported:
+                        pred = hist_predicate(c, si, ru)
+                        chk.violation('corr:C09/history', 'history-differs', dict(sig0, step=c['steps'][si]['kind'], observable='model'),
+                                      hist, dict(step=si, dim=k, impl=str(ru[1]['weights'][k])[:300], model=str(mwe)[:300],
+                                                 property_predicate_on_reused_object=pred or 'holds'), failing_input=bool(pred))
+                        reported = True
+                else:
+                    ok, resid, nonneg = mr
+                    chk.count('cert:moments_ok evaluated')
+                    if not ok:
+                        deg = next(j for j, (x, t) in enumerate(zip(resid, tols)) if abs(sx.q(x)) > t)
+                        chk.violation('checker:moments_ok', 'moment-residual', dict(sig0, degree=deg, history_step=si), hist,
+                                      dict(text='rule returned by request %d does not reproduce the moment of degree %d' % (si, deg),
+                                           dim=k, residuals=[float(sx.q(x)) for x in resid], tolerances=[float(t) for t in tols]))
+        if len(c['steps']) >= 2 and max(len(dd['pts']) for dd in c['steps'][0]['dims']) >= 3:
+            keys.append(('hist', fam, str(sorted(c['par'].items())), c['boundary'], c['mb'], str(c['steps'])))
+        if len(samples) < 4 and fam == 'highorder' and len(c['steps']) >= 3:
+            samples.append(dict(kind='history', family=fam, par=c['par'], boundary=c['boundary'], intervals=c['intervals'],
+                                steps=[dict(kind=sk['kind'], points=[dd['pts'] for dd in sk['dims']]) for sk in c['steps']]))
+
+
+def hist_fails(case):
+    """Does the last request of the history still differ from a fresh object / modify its arguments / raise? (runs in a worker)"""
+    try:
+        r = impl_hist(case)
+    except Exception:
+        return False
+    rec = r[-1]
+    if not rec['args_unchanged']:
+        return True
+    if rec['reused'][0] != 'ok':
+        return rec['fresh'][0] == 'ok'
+    return rec['fresh'][0] == 'ok' and any(rec['reused'][1].get(o) != rec['fresh'][1].get(o) for o in ('coords', 'weights', 'num_points', 'effective'))
+
+
+def shrink_hist(case):
+    cur = case
+    if not hist_fails(cur):
+        return case
+    changed = True
+    while changed:
+        changed = False
+        # drop earlier requests, then the second dimension, then leaf points of the first request
+        for j in range(len(cur['steps']) - 1):
+            cd = dict(cur, steps=cur['steps'][:j] + cur['steps'][j + 1:])
+            if hist_fails(cd):
+                cur = cd; changed = True
+                break
+        if changed:
+            continue
+        if len(cur['intervals']) == 2:
+            for k in (0, 1):
+                cd = dict(cur, intervals=[cur['intervals'][k]], mode2=None,
+                          steps=[dict(sk, dims=[sk['dims'][k]]) for sk in cur['steps']])
+                if hist_fails(cd):
+                    cur = cd; changed = True
+                    break
+        if changed:
+            continue
+        if cur['poke']:
+            cd = dict(cur, poke=False)
+            if hist_fails(cd):
+                cur = cd; changed = True
+    return cur
+
+
 # ----------------------------------------------------------------------------------------------- fixed corpus
 def corpus():
     t = []
@@ -686,6 +1157,10 @@ def corpus():
                    wsplit=False, full=False, dim=dict(a=-1.0, b=3.0, pts=[-1.0, -0.5, 0.0, 1.0, 1.5, 1.75, 2.0, 3.0], levels=[0, 3, 2, 1, 3, 4, 2, 0])))
     ce.append(dict(kind='cert', family='lagrange', par=dict(p=2), boundary=False, mb=True, wsplit=False, full=False,
                    dim=dict(a=0.0, b=1.0, pts=[0.0, 0.5, 1.0], levels=[0, 1, 0])))
+    ce.append(dict(kind='cert', family='lagrange', par=dict(p=1), boundary=False, mb=True, wsplit=False, full=False,
+                   dim=dict(a=0.0, b=1.0, pts=[0.0, 0.5, 1.0], levels=[0, 1, 0])))
+    ce.append(dict(kind='cert', family='lagrange', par=dict(p=2), boundary=False, mb=True, wsplit=False, full=False,
+                   dim=dict(a=0.0, b=1.0, pts=[0.0, 0.25, 0.5, 1.0], levels=[0, 2, 1, 0])))
     ce.append(dict(kind='cert', family='bspline', par=dict(p=1), boundary=False, mb=True, wsplit=False, full=False,
                    dim=dict(a=-1.0, b=3.0, pts=[-1.0, -0.75, -0.625, -0.5, 0.0, 0.5, 0.75, 0.875, 1.0, 3.0],
                             levels=[0, 4, 5, 3, 2, 3, 4, 5, 1, 0])))
@@ -693,6 +1168,26 @@ def corpus():
 
 
 GEN_CHAIN = ['Base/PyNum.v', 'Gen/GridGen.v', 'Proofs/PyNumFacts.v', 'Proofs/GenGridEq.v']
+
+
+def hist_corpus():
+    """Fixed histories: the same graded stripe twice / a refinement that leaves the left half unchanged / equal stripes in two dimensions."""
+    res = []
+    g1 = dict(pts=[0.0, 0.5, 0.75, 0.875, 1.0], levels=[0, 1, 2, 3, 0])
+    g2 = dict(pts=[0.0, 0.5, 0.75, 0.875, 0.9375, 1.0], levels=[0, 1, 2, 3, 4, 0])
+    for fam, par, flags in [('highorder', dict(split_up=True, max_degree=5, do_nnls=False), (True, False)),
+                            ('highorder', dict(split_up=False, max_degree=5, do_nnls=False), (True, False)),
+                            ('simpson', {}, (True, False)), ('trap', {}, (False, True)), ('trap', {}, (True, False)),
+                            ('lagrange', dict(p=2), (True, False)), ('bspline', dict(p=3), (True, False))]:
+        res.append(dict(kind='hist', family=fam, par=par, boundary=flags[0], mb=flags[1], intervals=[[0.0, 1.0]], mode2=None,
+                        steps=[dict(kind='first', dims=[g1]), dict(kind='same', dims=[g1]), dict(kind='refine-right', dims=[g2])],
+                        arg_style='list' if fam == 'bspline' else 'ndarray', poke=True, values_seed=3))
+        res.append(dict(kind='hist', family=fam, par=par, boundary=flags[0], mb=flags[1], intervals=[[0.0, 1.0], [-1.0, 3.0]],
+                        mode2='scaled-stripe',
+                        steps=[dict(kind='first', dims=[g1, dict(g1, pts=[-1.0, 1.0, 2.0, 2.5, 3.0])]),
+                               dict(kind='refine-right', dims=[g2, dict(g1, pts=[-1.0, 1.0, 2.0, 2.5, 3.0])])],
+                        arg_style='list', poke=False, values_seed=4))
+    return res
 
 
 def run(chk):
@@ -711,21 +1206,45 @@ def run(chk):
     check_trap(chk, tcases, timpl, keys, samples)
     cimpl = run_impl(impl_cert, ccases, limit=120)
     check_cert(chk, ccases, cimpl, keys, samples)
+    hcases = hist_corpus() + [gen_hist_case(rng) for _ in range(chk.n(420, 9000))] + \
+        [gen_hist_case(rng, big=True) for _ in range(chk.n(8, 120))]
+    himpl = run_impl(impl_hist, hcases, limit=240)
+    check_hist(chk, hcases, himpl, keys, samples)
     run_shrink_jobs(chk)
     # a broken translation / equivalence is a broken proof obligation; reported without failing input only when the
     # correspondence and the oracle above found no concrete input on which the implementation violates the property
     gen.finish_gen(chk, tinfo, gen_problem)
-    chk.record_cases(len(tcases) + len(ccases), keys,
+    chk.record_cases(len(tcases) + len(ccases) + len(hcases), keys,
                      'refinement-tree grids (3..60 points, dyadic midpoint and weighted-split trees, strongly graded styles, 8 '
                      'intervals [a,b], d 1..3); trapezoid: boundary/modified flags, exact comparison of compute_weights, set_grid, '
                      'integrate with the extracted model + property oracle; certified: moments_ok (extracted Coq checker) on '
                      'GlobalHighOrder/Simpson weights and on effective nodal weights of GlobalLagrange/BSpline; non-trivial = valid '
-                     'grid with >= 3 points; distinct by (family, flags, points)', samples)
+                     'grid with >= 3 points; distinct by (family, flags, points); histories: 2-4 set_grid requests on ONE object of every '
+                     'family (same / refined-with-one-half-unchanged / other tree / equal, scaled, exchanged stripes in a second '
+                     'dimension), each compared with fresh objects, the model or the moment checker, argument immutability and '
+                     'returned-array aliasing; non-trivial = at least 2 requests; distinct by the whole history', samples)
     chk.extra['checker_evaluations'] = chk.hist.get('cert:moments_ok evaluated', 0)
 
 
 def replay(chk, rep):
     c = rep['case']
+    if c.get('kind') == 'hist':
+        st, r = run_impl(impl_hist, [c])[0]
+        if st != 'ok':
+            print('impl:', st, str(r)[:500]); return 1
+        rc = 0
+        for si, rec in enumerate(r):
+            ru, fr = rec['reused'], rec['fresh']
+            same = ru[0] == fr[0] and (ru[0] != 'ok' or all(ru[1].get(o) == fr[1].get(o) for o in ('coords', 'weights', 'num_points', 'effective')))
+            pred = hist_predicate(c, si, ru)
+            print('request %d (%s): re-used object %s a fresh object; arguments %s; property predicate on the re-used object: %s'
+                  % (si, c['steps'][si]['kind'], 'agrees with' if same else 'DIFFERS from',
+                     'unchanged' if rec['args_unchanged'] else 'MODIFIED', pred or 'holds'))
+            if not same:
+                print('   re-used:', str(ru)[:600]); print('   fresh:  ', str(fr)[:600])
+            if (pred and not hist_predicate(c, si, fr)) or not rec['args_unchanged'] or (ru[0] != 'ok' and fr[0] == 'ok'):
+                rc = 1
+        return rc
     if c.get('kind') == 'cert':
         st, r = run_impl(impl_cert, [c])[0]
         print('impl:', st, str(r)[:1500])
